@@ -43,6 +43,9 @@ func genIK(r *RNG, seed uint64, tier string) (*Scenario, *ExploreCfg) {
 		case x < 5: // spend most of the balance: a second execution would fail on its own
 			amt := funds/2 + 1 + r.Intn(funds/2)
 			base = Op{Kind: KPostings, Postings: []PostingSpec{{"u:1", "bank", fmt.Sprint(amt), "USD"}}}
+		case x < 6 && r.Bool():
+			// a script that sets transaction and account metadata itself (the request carries metadata too)
+			base = Op{Kind: KScript, Script: fmt.Sprintf("send [USD 3] (\n  source = @world\n  destination = @w:%d\n)\nset_tx_meta(\"category\", \"c%d\")\nset_account_meta(@w:%d, \"k\", \"v\")\n", gi, gi, gi)}
 		case x < 6:
 			base = Op{Kind: KScript, Script: "send [USD *] (\n  source = @u:1\n  destination = @bank\n)\n", Sem: &ScriptSem{Asset: "USD", Amount: "*", Sources: []SourceSem{{Account: "u:1"}}, Dest: "bank"}}
 		case x < 7:
@@ -327,8 +330,13 @@ func checkIK(r *runner, views map[string]*LedgerView) []Violation {
 					vs = append(vs, Violation{prop, "acknowledged-write-applied", fmt.Sprintf("key %s: %s answered success but nothing was committed for the key", ik, or.Op.ID)})
 				}
 			}
+			// whatever the kind: a caller that sent the very input the key was applied with is never told its
+			// input differs
+			if winner != "" && same && out == "validation" && strings.Contains(strings.ToLower(or.Out.Msg), "idempotency") {
+				vs = append(vs, Violation{prop, "same-input-is-a-hit-never-a-mismatch", fmt.Sprintf("key %s was applied with input %s; %s sent the same input and was answered %d %s %s", ik, winner, or.Op.ID, or.Out.Status, or.Out.Code, or.Out.Msg)})
+			}
 			// non balance-dependent kinds: once somebody committed, a same-input caller never gets a business error
-			if winner != "" && same && or.Op.Kind != KPostings && or.Op.Kind != KScript {
+			if winner != "" && same && (or.Op.Kind != KPostings && (or.Op.Kind != KScript || or.Op.Sem == nil)) {
 				switch out {
 				case "ok", "hit", "hit-own", "conflict", "unknown", "faulted":
 				default:
